@@ -21,6 +21,8 @@ use serde::{Deserialize, Serialize};
 use std::sync::atomic::{AtomicBool, AtomicU32, AtomicUsize, Ordering};
 use std::sync::Arc;
 use std::time::{Duration, Instant};
+use serde_json::json;
+use vkit::child::{self, ChildSpec, End};
 use vkit::{pick, Args, Evidence, Outcome, RunCfg};
 
 #[derive(Debug, Clone, Copy, Serialize, Deserialize, PartialEq)]
@@ -128,6 +130,14 @@ struct SendPool(*const CoroutinePool<'static>);
 unsafe impl Send for SendPool {}
 
 static SERIAL: AtomicU32 = AtomicU32::new(0);
+/// set in the per-case child process: print `start k` / `done k` around every driver step
+static TRACE_OPS: AtomicBool = AtomicBool::new(false);
+
+static HANGS_SEEN: AtomicU32 = AtomicU32::new(0);
+static MAX_WALL_MS: std::sync::atomic::AtomicU64 = std::sync::atomic::AtomicU64::new(0);
+
+/// every class label an outcome can carry (the child reports them by name)
+const CLASSES: [&str; 5] = ["cancel-while-suspended", "worker-died-by-panic", "max-size-reached", "submit-after-stop", "waiter-spans-stop"];
 
 pub fn exec(c: &Case, lifecycle: bool) -> Outcome {
     let serial = SERIAL.fetch_add(1, Ordering::SeqCst);
@@ -165,6 +175,10 @@ pub fn exec(c: &Case, lifecycle: bool) -> Outcome {
     for (k, op) in c.ops.iter().enumerate() {
         if o.fail.is_some() {
             break;
+        }
+        let trace = TRACE_OPS.load(Ordering::Relaxed);
+        if trace {
+            child::emit(json!({"ev":"start","k":k}));
         }
         match *op {
             Op::Submit(b) => {
@@ -321,6 +335,12 @@ pub fn exec(c: &Case, lifecycle: bool) -> Outcome {
         if running > max {
             o.set_fail("C11/running-size-exceeds-max", format!("op {k}: get_running_size() = {running} > max_size {max}"));
         }
+        if trace {
+            child::emit(json!({"ev":"done","k":k}));
+        }
+    }
+    if TRACE_OPS.load(Ordering::Relaxed) {
+        child::emit(json!({"ev":"start","k":"epilogue"}));
     }
 
     // state monotonicity
@@ -426,39 +446,105 @@ pub fn exec(c: &Case, lifecycle: bool) -> Outcome {
         .class_if(waiter_spans_stop >= 1, "waiter-spans-stop")
 }
 
+/// child side (`C11child` / `C12child`): one history in a fresh process, verdict on stdout
+fn child_main(prop: &'static str, lifecycle: bool) -> i32 {
+    std::panic::set_hook(Box::new(|_| {}));
+    let case: Case = serde_json::from_value(child::read_stdin_json()).expect("case");
+    TRACE_OPS.store(true, Ordering::Relaxed);
+    let o = match std::panic::catch_unwind(std::panic::AssertUnwindSafe(|| exec(&case, lifecycle))) {
+        Ok(o) => o,
+        Err(e) => {
+            let m = e.downcast_ref::<&'static str>().map(|s| (*s).to_string()).or_else(|| e.downcast_ref::<String>().cloned()).unwrap_or_else(|| "non-string panic".into());
+            Outcome::fail(format!("{prop}/harness-or-code-panic"), format!("panic while executing case: {m}"))
+        }
+    };
+    child::emit(json!({
+        "ev": "result",
+        "fail": o.fail.as_ref().map(|(s, m)| json!([s, m])),
+        "nontrivial": o.nontrivial,
+        "classes": o.classes,
+    }));
+    // helper threads of a failed case may still be blocked; the verdict is out, leave
+    std::process::exit(0)
+}
+
+/// parent side: run one history in a fresh child process. Pools, their leftover tasks and
+/// worker coroutines live in process-wide work-stealing queues, so a history that ends with
+/// work outstanding (a stop that timed out, a failed case) would hand that work to the pool
+/// of the next history; a process per history makes every verdict a function of its own
+/// history only, and identical to what `--replay` of the saved case sees.
+pub fn exec_isolated(prop: &'static str, c: &Case) -> Outcome {
+    let js = serde_json::to_string(c).unwrap();
+    // Once a history has hung, proptest re-runs shrink candidates of it; give those a
+    // shorter (still generous) limit and stop shrinking after a dozen hangs, so that a tree
+    // with a non-returning call is reported in minutes rather than in hours.
+    let seen = HANGS_SEEN.load(Ordering::SeqCst);
+    if seen >= 12 {
+        let mut o = Outcome::pass();
+        o.excluded = Some("shrink-candidate-skipped-after-repeated-hangs");
+        return o;
+    }
+    let limit = Duration::from_secs(if seen == 0 { 25 } else { 12 });
+    let r = child::run_child(&ChildSpec { args: vec![format!("{prop}child")], stdin: &js, timeout: limit, env: vec![] });
+    if matches!(r.end, End::Deadline { .. }) {
+        HANGS_SEEN.fetch_add(1, Ordering::SeqCst);
+    } else {
+        MAX_WALL_MS.fetch_max(r.wall.as_millis() as u64, Ordering::SeqCst);
+    }
+    let at = || r.open_op().map(|v| v["k"].clone());
+    let mut o = Outcome::pass();
+    match (&r.end, r.result()) {
+        (End::Exit(0), Some(res)) => {
+            if let Some(f) = res["fail"].as_array() {
+                o.set_fail(f[0].as_str().unwrap_or("?"), f[1].as_str().unwrap_or("?"));
+            }
+            o.nontrivial = res["nontrivial"].as_bool().unwrap_or(false);
+            for cl in res["classes"].as_array().into_iter().flatten() {
+                if let Some(k) = CLASSES.iter().find(|k| Some(**k) == cl.as_str()) {
+                    o.classes.push(k);
+                }
+            }
+        }
+        // a scheduling pass / stop / wait that never returns although every task is short is
+        // a failure of "returns promptly"; the longest legitimate history takes well under 10 s
+        (End::Deadline { cpu_busy }, _) => o.set_fail(
+            format!("{prop}/pool/call-did-not-return"),
+            format!("the history was still executing after {limit:?} (cpu busy: {cpu_busy}); step in progress: {:?}", at()),
+        ),
+        (End::Signal(sig), _) => o.set_fail(
+            format!("{prop}/process-aborted-while-executing-this-case"),
+            format!("the process was killed by signal {sig} during step {:?}; stderr tail: {}", at(), r.stderr_tail.lines().rev().take(3).collect::<Vec<_>>().join(" | ")),
+        ),
+        _ => o.excluded = Some("child-ended-without-a-verdict"),
+    }
+    filter(prop, o)
+}
+
 fn main_for(args: &Args, prop: &'static str, lifecycle: bool) -> i32 {
     std::panic::set_hook(Box::new(|_| {}));
-    // a scheduling pass / stop that never returns although every task is short is a failure
-    // of "returns promptly"; the longest legitimate case takes well under 10 s
-    vkit::hang::start_monitor(prop, args.tier, args.seed, Duration::from_secs(25));
     if let Some(p) = &args.replay {
         let (_, _, case) = vkit::load_replay(p);
-        return vkit::replay_verdict(prop, p, &filter(prop, exec(&serde_json::from_value(case).expect("case"), lifecycle)));
+        return vkit::replay_verdict(prop, p, &exec_isolated(prop, &serde_json::from_value(case).expect("case")));
     }
     let mut ev = Evidence::new(prop, args, "exploration");
-    ev.assume("one pool alive per process at a time (all pools share one process-wide task queue and one coroutine queue)");
+    ev.assume("one pool alive per process: every history (generated, regression seed or replay) runs in a fresh child process, because all pools of a process share one work-stealing task queue and one coroutine queue and leftover work of one history would be run by the pool of the next");
     ev.assume("liveness of a worker coroutine is observed through a drop-counting token in its coroutine-local storage");
-    ev.add(vkit::run_regress(prop, move |_s, case| filter(prop, exec(&serde_json::from_value(case).expect("case"), lifecycle))));
+    ev.add(vkit::run_regress(prop, move |_s, case| exec_isolated(prop, &serde_json::from_value(case).expect("case"))));
     if ev.has_violations() {
         return ev.finish();
     }
     let rule = if lifecycle {
-        "histories over {submit(body), pass, sleep, cancel, wait on a helper thread, stop} on a standalone pool (min/max/keep-alive generated); non-trivial = a submit after stop began, or a waiter registered before stop"
+        "histories over {submit(body), pass, sleep, cancel, wait on a helper thread, stop} on a standalone pool (min/max/keep-alive generated), one fresh process per history; non-trivial = a submit after stop began, or a waiter registered before stop"
     } else {
-        "histories over {submit(return|panic|delay|suspend|delay-then-panic), pass, sleep, cancel} on a standalone pool (max 1..6, min, keep-alive 0|5ms|forever), then drive to the end and stop; non-trivial = a task cancelled while suspended, or a worker died by panic, or max_size reached"
+        "histories over {submit(return|panic|delay|suspend|delay-then-panic), pass, sleep, cancel} on a standalone pool (max 1..6, min, keep-alive 0|5ms|forever), then drive to the end and stop, one fresh process per history; non-trivial = a task cancelled while suspended, or a worker died by panic, or max_size reached"
     };
     ev.add(vkit::run_prop(
-        &RunCfg { property: prop, sub: "pool", rule, seed: args.seed, cases: args.cases(200, 6_000), shards: 1, max_shrink_iters: 300 },
+        &RunCfg { property: prop, sub: "pool", rule, seed: args.seed, cases: if lifecycle { args.cases(600, 12_000) } else { args.cases(1_000, 20_000) }, shards: 8, max_shrink_iters: 300 },
         move || strategy(lifecycle),
-        move |c| {
-            vkit::hang::guard(
-                "pool",
-                &format!("{prop}/pool/call-did-not-return"),
-                || serde_json::to_string(c).unwrap_or_default(),
-                || filter(prop, exec(c, lifecycle)),
-            )
-        },
+        move |c| exec_isolated(prop, c),
     ));
+    ev.extra.insert("longest_history_wall_s".into(), json!(MAX_WALL_MS.load(Ordering::SeqCst) as f64 / 1000.0));
+    ev.extra.insert("histories_that_hung".into(), json!(HANGS_SEEN.load(Ordering::SeqCst)));
     ev.finish()
 }
 
@@ -478,4 +564,10 @@ pub fn main_c11(args: &Args) -> i32 {
 }
 pub fn main_c12(args: &Args) -> i32 {
     main_for(args, "C12", true)
+}
+pub fn child_c11() -> i32 {
+    child_main("C11", false)
+}
+pub fn child_c12() -> i32 {
+    child_main("C12", true)
 }
